@@ -6,6 +6,7 @@ import Rcgen.Model.CsrParse
 import Rcgen.Model.Keys
 import Rcgen.Model.Cli
 import Rcgen.Model.Ctor
+import Rcgen.Model.Error
 import Rcgen.Spec.Validate
 /- line-protocol driver: one request per line, one response per line -/
 namespace Driver
@@ -312,6 +313,53 @@ def handle (op : String) (args : List Sexp) : R Sexp := do
     match acmeIdentifier (← d.asBytes) with
     | some e => pure (.list [.atom "ok", .list (e.oid.map ofNat), ofBool e.critical, ofBytes e.content])
     | none => pure (.atom "panic")
+  | "err-display", [e] => do
+    let decTy (x : Sexp) : R StrTy := do
+      match ← x.asAtom with
+      | "printable" => pure .printable | "universal" => pure .universal | "ia5" => pure .ia5
+      | "teletex" => pure .teletex | "bmp" => pure .bmp | s => throw s!"bad string type {s}"
+    let v : ErrorV ← match ← e.tagged with
+      | ("CouldNotParseCertificate", []) => pure .couldNotParseCertificate
+      | ("CouldNotParseCertificationRequest", []) => pure .couldNotParseCertificationRequest
+      | ("CouldNotParseKeyPair", []) => pure .couldNotParseKeyPair
+      | ("InvalidNameType", []) => pure .invalidNameType
+      | ("InvalidAsn1String", [ty, t]) => do pure (.invalidAsn1String (← decTy ty) (← t.asBytes))
+      | ("InvalidOid", []) => pure .invalidOid
+      | ("InvalidIpAddressOctetLength", [n]) => do pure (.invalidIpAddressOctetLength (← n.asNat))
+      | ("KeyGenerationUnavailable", []) => pure .keyGenerationUnavailable
+      | ("UnsupportedExtension", []) => pure .unsupportedExtension
+      | ("UnsupportedSignatureAlgorithm", []) => pure .unsupportedSignatureAlgorithm
+      | ("RingUnspecified", []) => pure .ringUnspecified
+      | ("RingKeyRejected", [m]) => do pure (.ringKeyRejected (← m.asBytes))
+      | ("Time", []) => pure .time
+      | ("PemError", [m]) => do pure (.pemError (← m.asBytes))
+      | ("RemoteKeyError", []) => pure .remoteKeyError
+      | ("UnsupportedInCsr", []) => pure .unsupportedInCsr
+      | ("InvalidCrlNextUpdate", []) => pure .invalidCrlNextUpdate
+      | ("IssuerNotCrlSigner", []) => pure .issuerNotCrlSigner
+      | ("MissingSerialNumber", []) => pure .missingSerialNumber
+      | ("X509", [m]) => do pure (.x509 (← m.asBytes))
+      | (t, _) => throw s!"bad error {t}"
+    pure (ofBytes v.display)
+  | "str-ctor-err", [k, t] => do
+    match strCtorError (← decKind k) (← decText t) with
+    | some e => pure (.list [.atom "err", ofBytes e.display])
+    | none => pure (.atom "ok")
+  | "str-bytes-err", [k, b] => do
+    let r ← match ← k.asAtom with
+      | "bmp" => pure (bmpBytesError (← b.asBytes))
+      | "universal" => pure (universalBytesError (← b.asBytes))
+      | s => throw s!"bad kind {s}"
+    match r with
+    | some e => pure (.list [.atom "err", ofBytes e.display])
+    | none => pure (.atom "ok")
+  | "pem-err", [k, a, b] => do
+    let e : PemErr ← match ← k.asAtom with
+      | "mismatched" => do pure (.mismatchedTags (← a.asBytes) (← b.asBytes))
+      | "header" => do pure (.invalidHeader (← a.asBytes))
+      | "other" => do pure (.other (← a.asBytes))
+      | s => throw s!"bad pem error {s}"
+    pure (ofBytes (pemErrorOf e).display)
   | "classify-san", [t] => do
     match classifySan (← t.asBytes) with
     | .ok s => pure (.list [.atom "ok", encSan s])
